@@ -1108,11 +1108,11 @@ func (t *tree) newValueNode(tok item) ast.Node {
 	case itemBool:
 		return &ast.BoolNode{tok.pos, tok.val == "true"}
 	case itemInteger:
-		var base = 10
+		var digits, base = tok.val, 10
 		if strings.HasPrefix(tok.val, "0x") {
-			base = 16
+			digits, base = tok.val[2:], 16 // ParseInt takes the digits without the prefix
 		}
-		value, err := strconv.ParseInt(tok.val, base, 64)
+		value, err := strconv.ParseInt(digits, base, 64)
 		if err != nil {
 			t.error(err)
 		}
